@@ -200,6 +200,15 @@ def _make_state(datas, world, q):
         return ElementSubsetState([int(r) for r in q['rows']], data=src)
     if sel == 'mask':
         return MaskSubsetState(flags.reshape(shape) > 0.5, src.pixel_component_ids)
+    if sel in ('and', 'xor', 'or', 'andnot'):
+        # a composite of two selections that are both defined on the source table: the rows it selects THERE are
+        # what crosses the join (q['rows'] = the combination of q['a'] and q['b'], computed by queries())
+        fa = np.zeros(int(np.prod(shape)), dtype=bool)
+        fa[list(q['a'])] = True
+        sa = MaskSubsetState(fa.reshape(shape), src.pixel_component_ids)
+        sb = ElementSubsetState([int(r) for r in q['b']], data=src)
+        return {'and': lambda: sa & sb, 'xor': lambda: sa ^ sb, 'or': lambda: sa | sb,
+                'andnot': lambda: sa & ~sb}[sel]()
     raise core.EngineError('bad selection kind %r' % (sel,))
 
 
@@ -369,6 +378,14 @@ def queries(world):
                 rowsets = qs['rowsets'][s]
             else:
                 rowsets = [[i for i in range(n) if bits >> i & 1] for bits in range(2 ** n)]
+            if sel in ('and', 'xor', 'or', 'andnot'):
+                for a in rowsets:
+                    for b in rowsets:
+                        sa, sb = set(a), set(b)
+                        rows = sorted({'and': sa & sb, 'xor': sa ^ sb, 'or': sa | sb, 'andnot': sa - sb}[sel])
+                        for v in vs:
+                            out.append(dict(t=t, s=s, rows=rows, a=a, b=b, sel=sel, view=v))
+                continue
             for rows in rowsets:
                 for v in vs:
                     out.append(dict(t=t, s=s, rows=rows, sel=sel, view=v))
@@ -521,7 +538,7 @@ def fam_dtypes(spec, pal):
 def fam_reg(spec, pal):
     _, shape, reg = spec
     ncl, ncr = NCOLS[shape]
-    qs = dict(pairs=[['L', 'R'], ['R', 'L']], sels=['flag', 'elem', 'mask'], views='short')
+    qs = dict(pairs=[['L', 'R'], ['R', 'L']], sels=['flag', 'elem', 'mask', 'and', 'xor', 'or', 'andnot'], views='short')
     for lt in tables(ncl, 2, 2):
         for rt in tables(ncr, 2, 2):
             yield pair_world('reg', shape, ['i64'], lt, rt, pal, reg=reg, qs=qs)
